@@ -155,15 +155,17 @@ theorem point_to_cylinder_mem_dist (p : V) (A : Pose ℝ) (r l : ℝ) (hR : Orth
 theorem circle_eps_pos : (0 : ℝ) < Gen.distance__circle__point_to_circle__epsilon := by
   unfold Gen.distance__circle__point_to_circle__epsilon; norm_num
 
-/-- **C11, `point_to_circle`** with the default `epsilon` regenerated from /repo.  Unit normal,
-`r ≥ 0`; the query point is outside the documented ε-band (`|dip|² = 0` or `≥ epsilon`, where
-`dip` is the component of `p − c` in the circle plane) and the normal is outside pytransform3d's
-band `0 < |n.z| < 1e-7`: no point of the circle is closer to `p` than the returned distance —
-also in the on-axis case, where the code returns an arbitrary circle point. -/
+/-- **C11, `point_to_circle`, exact** (code as of /repo 0e4a1a6: `sqr_len >= epsilon * epsilon`),
+default `epsilon` regenerated from /repo.  Unit normal, `r ≥ 0`; the query point is outside the
+band `0 < |dip|² < epsilon²` (`dip` = component of `p − c` in the circle plane) and the normal is
+outside pytransform3d's band `0 < |n.z| < 1e-7`: no point of the circle is closer to `p` than the
+returned distance — also in the on-axis case, where the code returns an arbitrary circle point.
+Inside the band see `point_to_circle_opt_within_epsilon`. -/
 theorem point_to_circle_opt (p c : V) (r : ℝ) (n : V) (hn : V3.dot n n = 1) (hr : 0 ≤ r)
     (hband : V3.normSq ((p - c) - V3.dot (p - c) n * n) = 0 ∨
-      (Gen.distance__circle__point_to_circle__epsilon : ℝ) ≤
-        V3.normSq ((p - c) - V3.dot (p - c) n * n))
+      (Gen.distance__circle__point_to_circle__epsilon : ℝ) *
+        Gen.distance__circle__point_to_circle__epsilon ≤
+          V3.normSq ((p - c) - V3.dot (p - c) n * n))
     (hz : n.z = 0 ∨ (pt3dEps : ℝ) ≤ |n.z|) :
     ∃ res, pointToCircle p c r n Gen.distance__circle__point_to_circle__epsilon = .ok res ∧
       ∀ x, circleSet c r n x → res.dist * res.dist ≤ V3.normSq (p - x) := by
@@ -173,17 +175,35 @@ theorem point_to_circle_opt (p c : V) (r : ℝ) (n : V) (hn : V3.dot n n = 1) (h
 /-- **C10, `point_to_circle`.** Membership, `d ≥ 0`, `d² = |p − cp|²` (same hypotheses). -/
 theorem point_to_circle_mem_dist (p c : V) (r : ℝ) (n : V) (hn : V3.dot n n = 1) (hr : 0 ≤ r)
     (hband : V3.normSq ((p - c) - V3.dot (p - c) n * n) = 0 ∨
-      (Gen.distance__circle__point_to_circle__epsilon : ℝ) ≤
-        V3.normSq ((p - c) - V3.dot (p - c) n * n))
+      (Gen.distance__circle__point_to_circle__epsilon : ℝ) *
+        Gen.distance__circle__point_to_circle__epsilon ≤
+          V3.normSq ((p - c) - V3.dot (p - c) n * n))
     (hz : n.z = 0 ∨ (pt3dEps : ℝ) ≤ |n.z|) :
     ∃ res, pointToCircle p c r n Gen.distance__circle__point_to_circle__epsilon = .ok res ∧
       circleSet c r n res.cp ∧ 0 ≤ res.dist ∧ res.dist * res.dist = V3.normSq (p - res.cp) := by
   obtain ⟨res, h1, h2⟩ := pointToCircle_spec p c r n _ hn hr circle_eps_pos hband hz
   exact ⟨res, h1, h2.1, h2.2.1, h2.2.2.1⟩
 
+/-- **C11, `point_to_circle`, every input — the band is closed up to `epsilon`.**  Unit normal,
+`r ≥ 0`, default `epsilon` (1e-6), *no* hypothesis on the position of `p` or on `n.z`: the function
+succeeds and no point of the circle is closer to `p` than `d − epsilon`; since `L ≥ 1` this is
+within the property's `1e-6·L`.  When the on-axis branch is taken (`|dip| < epsilon`) every circle
+point — in particular the arbitrary one that is returned — is at distance `d ± epsilon`. -/
+theorem point_to_circle_opt_within_epsilon (p c : V) (r : ℝ) (n : V) (hn : V3.dot n n = 1)
+    (hr : 0 ≤ r) :
+    ∃ res, pointToCircle p c r n Gen.distance__circle__point_to_circle__epsilon = .ok res ∧
+      0 ≤ res.dist ∧
+      (∀ x, circleSet c r n x →
+        res.dist - Gen.distance__circle__point_to_circle__epsilon ≤ V3.norm (p - x)) ∧
+      (res.branch = 1 → ∀ x, circleSet c r n x →
+        V3.norm (p - x) ≤ res.dist + Gen.distance__circle__point_to_circle__epsilon) := by
+  obtain ⟨res, h1, h0, h2, h3⟩ := pointToCircle_within p c r n _ hn hr circle_eps_pos
+  exact ⟨res, h1, h0, fun x hx => by have := h2 x hx; linarith, h3⟩
+
 /-- non-vacuity: the hypotheses hold for `p = (2, 0, 1)`, unit circle in the xy-plane -/
 example : V3.dot (⟨0, 0, 1⟩ : V) ⟨0, 0, 1⟩ = 1 ∧
-    ((Gen.distance__circle__point_to_circle__epsilon : ℝ) ≤
+    ((Gen.distance__circle__point_to_circle__epsilon : ℝ) *
+      Gen.distance__circle__point_to_circle__epsilon ≤
       V3.normSq (((⟨2, 0, 1⟩ : V) - ⟨0, 0, 0⟩) - V3.dot ((⟨2, 0, 1⟩ : V) - ⟨0, 0, 0⟩) ⟨0, 0, 1⟩ * (⟨0, 0, 1⟩ : V))) ∧
     ((pt3dEps : ℝ) ≤ |(⟨0, 0, 1⟩ : V).z|) := by
   refine ⟨by norm_num [V3.dot_def], ?_, ?_⟩
@@ -191,13 +211,13 @@ example : V3.dot (⟨0, 0, 1⟩ : V) ⟨0, 0, 1⟩ = 1 ∧
     norm_num [V3.normSq_def, V3.dot_def]
   · rw [pt3dEps_real]; norm_num
 
-/-- **as-is counterexample (known finding F-C11-circle-centre-band).** Inside the ε-band but
-*not* within the property's excluded direction-cosine band (the offset `p − c` lies in the
-circle plane, direction cosine 1): for the unit circle in the xy-plane and
-`p = (1/2000, 0, 0)` the faithful model returns `d = 1` although the circle point `(1, 0, 0)` is
-at distance `1 − 1/2000`; the excess `5e-4` is far above the property's `1e-6·L`. -/
-theorem pointToCircle_asIs_counterexample :
-    ∃ res x, pointToCircle (⟨1/2000, 0, 0⟩ : V) ⟨0, 0, 0⟩ 1 ⟨0, 0, 1⟩
+/-- **pre-fix counterexample (finding F-C11-circle-axis-band, repaired upstream by 0e4a1a6).**
+With the old test `sqr_len >= epsilon` (model `pointToCircle_asIs_before_fix`) the unit circle in
+the xy-plane and `p = (1/2000, 0, 0)` — offset in the circle plane, direction cosine 1, so not in
+the property's excluded band — gave `d = 1` although the circle point `(1, 0, 0)` is at distance
+`1 − 1/2000`; the excess `5e-4` is far above `1e-6·L`. -/
+theorem pointToCircle_asIs_before_fix_counterexample :
+    ∃ res x, pointToCircle_asIs_before_fix (⟨1/2000, 0, 0⟩ : V) ⟨0, 0, 0⟩ 1 ⟨0, 0, 1⟩
         Gen.distance__circle__point_to_circle__epsilon = .ok res ∧
       circleSet ⟨0, 0, 0⟩ 1 ⟨0, 0, 1⟩ x ∧ res.dist = 1 ∧
       V3.normSq ((⟨1/2000, 0, 0⟩ : V) - x) = (1 - 1/2000) * (1 - 1/2000) := by
@@ -205,9 +225,9 @@ theorem pointToCircle_asIs_counterexample :
     unfold perpendicularToVector
     rw [absS_real, pt3dEps_real]
     norm_num [isZero_real]
-  obtain ⟨res, hres, hd⟩ : ∃ res, pointToCircle (⟨1/2000, 0, 0⟩ : V) ⟨0, 0, 0⟩ 1 ⟨0, 0, 1⟩
+  obtain ⟨res, hres, hd⟩ : ∃ res, pointToCircle_asIs_before_fix (⟨1/2000, 0, 0⟩ : V) ⟨0, 0, 0⟩ 1 ⟨0, 0, 1⟩
       Gen.distance__circle__point_to_circle__epsilon = .ok res ∧ res.dist = 1 := by
-    unfold pointToCircle Gen.distance__circle__point_to_circle__epsilon
+    unfold pointToCircle_asIs_before_fix pointToCircleThr Gen.distance__circle__point_to_circle__epsilon
     dsimp only
     rw [if_neg (by norm_num [V3.dot_def]), hperp]
     simp only [bind, Except.bind]
@@ -217,6 +237,36 @@ theorem pointToCircle_asIs_counterexample :
   refine ⟨res, ⟨1, 0, 0⟩, hres, ?_, hd, ?_⟩
   · constructor <;> norm_num [V3.dot_def, V3.normSq_def]
   · norm_num [V3.normSq_def, V3.dot_def]
+
+/-- **regression on the same input after the fix**: the current model returns exactly the
+distance `1 − 1/2000` to the circle point `(1, 0, 0)` (`d² = (1 − 1/2000)²`, `d ≥ 0`). -/
+theorem pointToCircle_fixed_on_witness :
+    ∃ res, pointToCircle (⟨1/2000, 0, 0⟩ : V) ⟨0, 0, 0⟩ 1 ⟨0, 0, 1⟩
+        Gen.distance__circle__point_to_circle__epsilon = .ok res ∧ 0 ≤ res.dist ∧
+      res.dist * res.dist = (1 - 1/2000) * (1 - 1/2000) := by
+  have hband : V3.normSq (((⟨1/2000, 0, 0⟩ : V) - ⟨0, 0, 0⟩) -
+        V3.dot ((⟨1/2000, 0, 0⟩ : V) - ⟨0, 0, 0⟩) ⟨0, 0, 1⟩ * (⟨0, 0, 1⟩ : V)) = 0 ∨
+      (Gen.distance__circle__point_to_circle__epsilon : ℝ) *
+        Gen.distance__circle__point_to_circle__epsilon ≤
+      V3.normSq (((⟨1/2000, 0, 0⟩ : V) - ⟨0, 0, 0⟩) -
+        V3.dot ((⟨1/2000, 0, 0⟩ : V) - ⟨0, 0, 0⟩) ⟨0, 0, 1⟩ * (⟨0, 0, 1⟩ : V)) := by
+    right
+    unfold Gen.distance__circle__point_to_circle__epsilon
+    norm_num [V3.normSq_def, V3.dot_def]
+  obtain ⟨res, h1, hmem, h0, hd, hopt⟩ := pointToCircle_spec (⟨1/2000, 0, 0⟩ : V) ⟨0, 0, 0⟩ 1 ⟨0, 0, 1⟩ _
+    (by norm_num [V3.dot_def]) zero_le_one circle_eps_pos hband
+    (Or.inr (by rw [pt3dEps_real]; norm_num))
+  refine ⟨res, h1, h0, le_antisymm ?_ ?_⟩
+  · have := hopt ⟨1, 0, 0⟩ (by constructor <;> norm_num [V3.dot_def, V3.normSq_def])
+    have e : V3.normSq ((⟨1/2000, 0, 0⟩ : V) - ⟨1, 0, 0⟩) = (1 - 1/2000) * (1 - 1/2000) := by
+      norm_num [V3.normSq_def, V3.dot_def]
+    rw [e] at this; exact this
+  · -- every circle point is at least 1 − 1/2000 away: |p − cp|² = |p|² − 2⟨p, cp⟩ + 1 ≥ (1 − |p|)²
+    rw [hd]
+    obtain ⟨hm1, hm2⟩ := hmem
+    generalize res.cp = q at *
+    simp only [V3.normSq_def, V3.dot_def, V3.sub_x, V3.sub_y, V3.sub_z] at *
+    nlinarith [mul_self_nonneg (q.x - 1), mul_self_nonneg q.y, mul_self_nonneg q.z]
 
 /-! ### line_segment_to_triangle (partial: conditional on `_line_to_triangle`) -/
 
